@@ -359,6 +359,7 @@ func ruleAtomic(c *Ctx, rule string, only map[string]bool) {
 func ruleLookupAcquire(c *Ctx, rule string) {
 	p, l := c.P, c.L()
 	n := 0
+	seenAcq := map[ssa.CallInstruction]bool{}
 	for _, m := range findMultiListeners(c, rule) {
 		// the manager types: structs with a map whose values are (interfaces implemented by / pointers to) this listener type
 		mgr := map[string]bool{}
@@ -410,7 +411,18 @@ func ruleLookupAcquire(c *Ctx, rule string) {
 				continue
 			}
 			mt := eng.TypeName(r.Signature.Recv().Type())
-			for _, cl := range eng.Calls(f) {
+			var calls []ssa.CallInstruction
+			for _, g := range regionFns(c, f, nil, 2) {
+				// the method itself and the helpers it calls (a generic acquireShared(listeners, addr, newShared))
+				if g != f && g.Signature.Recv() != nil {
+					continue // methods of other types are judged on their own
+				}
+				calls = append(calls, eng.Calls(g)...)
+			}
+			for _, cl := range calls {
+				if seenAcq[cl] {
+					continue
+				}
 				hit := false
 				for _, h := range p.Callees(cl) {
 					if h == m.acquire {
@@ -420,6 +432,7 @@ func ruleLookupAcquire(c *Ctx, rule string) {
 				if !hit {
 					continue
 				}
+				seenAcq[cl] = true
 				n++
 				held := l.Held(cl)
 				ok := false
@@ -428,7 +441,7 @@ func ruleLookupAcquire(c *Ctx, rule string) {
 						ok = true
 					}
 				}
-				c.CheckAt(rule, short(f)+":acquires-under-the-manager-lock:"+m.T, cl, ok, fmt.Sprintf("%s acquires a shared listener outside the manager's critical section (held: %s): the listener can be released — and dropped from the table — between its lookup and this Acquire", short(f), held))
+				c.CheckAt(rule, short(cl.Parent())+":acquires-under-the-manager-lock:"+m.T, cl, ok, fmt.Sprintf("%s acquires a shared listener outside the manager's critical section (held: %s): the listener can be released — and dropped from the table — between its lookup and this Acquire", short(f), held))
 			}
 		}
 	}
